@@ -292,6 +292,17 @@ def main(tier: str, selftest_cases: int = 0) -> int:
     tasks = families.shuffled(tasks_for(tier), rep.seed)
     results = par.run("props.c10", "worker", tasks)
     work.merge(rep, results)
+    # the operators + and - across scales (a difference of two temperatures, in the left operand's
+    # unit, is the kelvin difference scaled by the degree ratio): c06's obligations, read for C10
+    from props import c06
+
+    pairs = [(u, v) for u in (c06.ABSOLUTE if tier == "thorough" else c06.ABSOLUTE[:3]) for v in c06.SCALES if u != v]
+    arith = par.run("props.c06", "affine_worker", [ch for ch in par.chunks(pairs, 6)])
+    for r in arith:
+        r["obs"] = [(st, "operators across scales: " + nm, ("c10-arith",) + tuple(k if isinstance(k, tuple) else (k,)))
+                    for st, nm, k in r["obs"]]
+        r["viol"] = [(v[0].replace("C06:", "C10:operator:", 1),) + tuple(v[1:]) for v in r["viol"]]
+    work.merge(rep, arith)
     rep.functions.update(cc.FUNCTIONS + ["measured.Dimension.scale", "measured.conversions.translate",
                                          "measured.Quantity.__eq__", "measured.Quantity.__lt__"])
     rep.coverage["configurations"] = sum(len(t[0]) for t in tasks)
